@@ -188,3 +188,114 @@ PROPS["C05"] = dict(
     outside="fmt::Debug of the sprite (formatting is stubbed), stack depth of Layer::is_visible for deep nesting, tile sizes and "
             "map sizes beyond the C08 bounds (e.g. the i32 products in the tilemap rasteriser for 65535-pixel tiles), real zlib streams",
 )
+
+
+PROPS["C13"] = dict(
+    prefix="c13_",
+    overlays=[("parse", "vk_c13.rs")],
+    bounds="one frame of two chunks (layer with symbolic attributes, user data) cut at every offset; whole file = 128-byte header "
+           "(unused bytes symbolic) + one empty frame cut at every offset 0..=144; two declared frames with one present",
+    outside="files with more chunks / frames (every read goes through the same exact-length primitive), cuts inside a real "
+            "zlib stream (the inflater is not encodable; flate2 reports a truncated stream as an I/O error)",
+)
+
+PROPS["C14"] = dict(
+    prefix="c14_",
+    overlays=[("reader", "vk_c14.rs"), ("parse", "vk_c13.rs")],
+    bounds="delivery schedules: one byte per call; at most 3 bytes per call with an Interrupted result on every 2nd call; "
+           "hard I/O error of 6 kinds at every byte offset of a 12-byte primitive sequence and of a two-chunk frame; contents symbolic",
+    outside="arbitrary (symbolic) split sizes -- std's read_exact loop treats every short count alike (argument, not verdict); "
+            "read_file / BufReader / real files (OS I/O is not encodable)",
+)
+
+
+PROPS["C19"] = dict(
+    prefix="c19_",
+    overlays=[("file", "vk_c02.rs"), ("file", "vk_c19.rs")],
+    per_harness={r"c19_q_single_cel_frame_equals_cel_image": dict(mem_gb=12, recursion={r"file::AsepriteFile::write_cel": 2}, timeout=1500)},
+    bounds="2 frames x 3 layers with 4 raw cels at symbolic offsets, symbolic (frame, layer) in range; single-visible-cel frame on "
+           "a 1x1 canvas with a second, hidden layer that also has a cel",
+    outside="Tilemap::image == cel image (one-line delegation, not encoded), larger sprites",
+)
+
+PROPS["C07"] = dict(
+    prefix="c07_",
+    overlays=[("parse", "vk_c07.rs"), ("parse", "vk_c11p.rs"), ("parse", "vk_c15p.rs"), ("parse", "vk_c01p.rs"), ("file", "vk_c02.rs"), ("pixel", "vk_c06x.rs")],
+    extra_harnesses=dict(
+        quick=["c11_q_new_palette_then_legacy", "c11_q_legacy_then_new_palette", "c15_q_header_pixel_ratio_and_depth",
+               "c01_q_header_one_frame", "c02_q_cel_order_201", "c06_q_rgba_raw", "c06_q_rgba_compressed"],
+        thorough=["c02_q_cel_order_120", "c06_q_gray_raw", "c06_t_gray_compressed", "c06_q_indexed_raw", "c06_t_indexed_compressed"]),
+    bounds="one layer chunk with symbolic attributes: count in old vs new field (old field arbitrary), 3 trailing chunk bytes, "
+           "symbolic unused fields; colour profile none/sRGB + three ignorable chunks with symbolic payloads around a layer and its "
+           "user data; 16 symbolic bytes after the last frame behind a failing reader; plus the re-run C01/C02/C06/C11/C15 harnesses",
+    outside="real deflate streams and compression levels (identity model of unzip): raw-vs-compressed equality is decided only "
+            "under that model",
+)
+
+
+PROPS["C18"] = dict(
+    prefix="c18_",
+    overlays=[("util", "vk_c18.rs")],
+    features=["utils"],
+    bounds="extrude_border on 1x1, 2x2 (quick), 3x1, 1x3 (thorough) images with symbolic pixels; palette mapper over a 3-entry palette "
+           "with concrete colours at indices 1, 4, 300, symbolic options and alpha, query among the palette colours and one absent colour; "
+           "to_indexed_image on a 2x1 image",
+    outside="arbitrary 24-bit colours as map keys (symbolic hash-map keys), duplicate colours in the palette, larger images",
+)
+
+
+def _c16_send_sync(dst, tier, seed, ev):
+    """Type-checker probe: a one-file crate that requires AsepriteFile: Send + Sync. Its failure to compile with a
+    trait-bound error is the violation (isolated so that the cause is unambiguous)."""
+    import os, subprocess, shutil
+    probe = os.path.join(os.path.dirname(dst), "sendsync")
+    os.makedirs(os.path.join(probe, "src"), exist_ok=True)
+    open(os.path.join(probe, "Cargo.toml"), "w").write(
+        '[package]\nname = "vk_sendsync"\nversion = "0.0.0"\nedition = "2021"\n[dependencies]\nasefile = { path = "../repo" }\n[workspace]\n')
+    open(os.path.join(probe, "src", "lib.rs"), "w").write(
+        "fn need<T: Send + Sync>() {}\npub fn probe() { need::<asefile::AsepriteFile>(); need::<asefile::Tileset>(); need::<asefile::ColorPalette>(); }\n")
+    shutil.copy(os.path.join(dst, "Cargo.lock"), os.path.join(probe, "Cargo.lock"))
+    env = dict(os.environ, CARGO_NET_OFFLINE="true", CARGO_TARGET_DIR=os.path.join(probe, "target"))
+    p = subprocess.run(["cargo", "check", "--offline", "--quiet"], cwd=probe, env=env, stdout=subprocess.PIPE, stderr=subprocess.STDOUT, text=True)
+    cov = dict(send_sync_probe="cargo check of a crate requiring AsepriteFile, Tileset, ColorPalette: Send + Sync: rc=%d" % p.returncode)
+    if p.returncode == 0:
+        return 0, [], cov
+    out = p.stdout
+    if "cannot be sent between threads safely" in out or "cannot be shared between threads safely" in out:
+        rd = os.path.join(VERIF_DIR, "replays", "C16", "sendsync")
+        shutil.rmtree(rd, ignore_errors=True)
+        shutil.copytree(probe, rd, ignore=shutil.ignore_patterns("target"))
+        open(os.path.join(rd, "rustc_output.txt"), "w").write(out)
+        return 1, ["VIOLATION property=C16 replay=%s" % rd, "  the sprite type is no longer Send + Sync: " + out.strip().splitlines()[0][:200]], cov
+    return 2, ["INCONCLUSIVE property=C16 send/sync probe crate failed to build for another reason: " + out[-600:].replace("\n", " | ")], cov
+
+
+import os as _os
+VERIF_DIR = _os.path.dirname(_os.path.dirname(_os.path.abspath(__file__)))
+
+PROPS["C16"] = dict(
+    prefix="c16_",
+    overlays=[("file", "vk_c02.rs"), ("file", "vk_c16.rs"), ("parse", "vk_c16p.rs")],
+    post=_c16_send_sync,
+    per_harness={r"c16_q_accessors_repeatable": dict(mem_gb=12, recursion={r"file::AsepriteFile::write_cel": 2}, timeout=1500)},
+    bounds="2-layer (group + image) 1x1 sprite with symbolic flags / opacities / modes / pixel: accessors called repeatedly and "
+           "interleaved; one layer chunk with symbolic bytes parsed twice; Send + Sync by the type checker",
+    outside="thread interleavings (not decidable with the installed solver-based tools: Kani does not model threads); the claim for "
+            "concurrency rests on &self-only accessors + the Send/Sync probe; dev-vs-release agreement rests on no overflow check "
+            "being reachable in the C02/C05/C06/C08 harnesses",
+    level_text="Bounded model checking of repeatability / determinism on a small symbolic sprite, plus a type-checker probe for "
+               "Send + Sync. PARTIAL: concurrency interleavings are not explored.",
+)
+
+
+PROPS["C12"] = dict(
+    prefix="c12_",
+    overlays=[("lib.rs", "vk_c12.rs")],
+    bounds="largest single Vec::with_capacity request (recorded by a stub) for: a raw image cel with declared width x height over all "
+           "of u16 x u16 in a 24-byte chunk; an external-files chunk with entry count over all of u32; a tags chunk with count over all of u16",
+    outside="PARTIAL: the sum of live allocations (peak heap) is not decided; reservations inside the inflater path "
+            "(AseReader::unzip: compressed cels, tilesets, tilemaps) cannot be observed because real inflate is not encodable; "
+            "vec![0; n] / resize sites (chunk payload buffer, cel table growth by layer index, frame tables) are bounded by argument "
+            "only (see DESIGN.md C12); deflate bombs",
+    level_text="Bounded model checking of the reservation argument at three declared-size sites; PARTIAL (see level_note).",
+)
